@@ -15,20 +15,7 @@ NOTES = ("Technique: machine-checked proof in Lean 4. Every check (1) regenerate
          "(3) rebuilds the Rust harness against /repo's working tree and diffs the real code against the "
          "model's executable definitions. See DESIGN.md.")
 NOT_APPLICABLE = {}
-META = {
-    "C13": {
-        "engine": "abi",
-        "design_ref": "DESIGN.md §6 C13",
-        "technique": "Lean 4 theorems (decide +kernel over complete generated tables; case analysis over all naturals for Opcode::from) + translator from source + differential layout/conversion check",
-        "text": "Kernel-checked theorems: every repr(C) structure of the ABI files has the kernel's size/offsets/widths "
-                "(repr(C) layout function in Lean vs gcc's offsetof on the installed fuse.h), every constant/flag/opcode/"
-                "notify code equals the kernel macro, Opcode::from is total over ALL u32 (proved for all naturals), "
-                "stat<->attr conversions preserve every field (round-trip theorems with the exact fitting guards). "
-                "The tables are regenerated from /repo's source on every run, so the theorems are re-checked against "
-                "what the code says now; rustc's own size_of/offset_of! and the real From impls are diffed against the model.",
-        "note": "Trusted: Lean kernel; axioms propext/Quot.sound/Classical.choice only; syn translator + gen_lean.py; gcc + "
-                "/usr/include/linux/fuse.h 7.38 as the kernel's definition; the hand-written pairing tables in Fbr.AbiSpec; "
-                "x86_64 libc::stat64 widths. Constants newer than the installed header (HAS_RESEND, NotifyOpcode::Resend) and the "
-                "out-of-tree FD_PASSTHROUGH bit are listed as having no counterpart, not compared.",
-    },
-}
+import os, sys
+sys.path.insert(0, os.path.dirname(os.path.abspath(__file__)))
+from props import PROPS
+META = {pid: cfg["manifest"] for pid, cfg in PROPS.items()}
